@@ -351,3 +351,48 @@ def r_abseps(A, ctx, scope, rule="R-ABSEPS"):
             if not hits:
                 ctx.ob(rule, f"{f.fq}", True)
     ctx.floor(rule, n, scope.get("floor", 300))
+
+
+def r_initialize(A, ctx, scope, rule="R-INITIALIZE"):
+    """C20 / C18: typestate of the datafit object inside a solve"""
+    ctx.rule(rule, "datafit typestate: in every solver that initialises the datafit, the call to "
+             "initialize / initialize_sparse is control-dependent on nothing but the storage "
+             "dispatch (`issparse(X)`): a solve on new data never reads the lazy attributes "
+             "(X^T y, ...) computed for the data of an earlier call - stale values of the same "
+             "extent give a wrong gradient, of a different extent an out-of-range read")
+    flow = A.flow
+    n = 0
+    for name, sf in sorted(A.facts.items()):
+        f = sf.f
+        cfg = cfg_of(f)
+        for nd in cfg.stmts():
+            st = nd.ast
+            if nd.kind != "stmt" or not isinstance(st, ast.Expr) or not isinstance(st.value, ast.Call):
+                continue
+            c = st.value
+            if not _slot_call(flow, f, c, "DATAFIT", {"initialize", "initialize_sparse"}):
+                continue
+            n += 1
+            bad = []
+            ifs = {id(x.test): x for x in ast.walk(f.node) if isinstance(x, ast.If)}
+            for t, lab, _ in cfg.facts_at(nd.id):
+                if not isinstance(t, ast.expr):
+                    continue
+                ifst = ifs.get(id(t))
+                if ifst is not None:
+                    other = ifst.body if lab == "false" else ifst.orelse
+                    if other and isinstance(other[-1], ast.Raise):
+                        continue          # the other branch refuses the call: no solve without init
+                txt = ast.unparse(t)
+                names = names_in(t)
+                sparse_test = "issparse" in txt or any(
+                    isinstance(a, ast.Assign) and isinstance(a.targets[0], ast.Name) and a.targets[0].id in names
+                    and "issparse" in ast.unparse(a.value) for a in ast.walk(f.node))
+                if not sparse_test:
+                    bad.append(txt)
+            ctx.ob(rule, f"{f.fq}::{norm_src(c)[:50]}", not bad,
+                   what=f"{f.qualname}: `{norm_src(c)[:50]}` is only executed when `{' and '.join(bad)[:80]}`: "
+                        "on the other paths the datafit keeps the lazy attributes of an earlier call "
+                        "(other data: wrong gradient; other width: out-of-range read in compiled code)",
+                   loc=loc(f, st))
+    ctx.floor(rule, n, scope.get("floor", 8))
